@@ -108,11 +108,19 @@ def _rect(c):
         gg = GeoGrid.RegularGrid(tseq, (axes[0].copy(), axes[1].copy()), silence_level=3)
         o["georegseq"] = [enc.ints(gg.lat_sequence()), enc.ints(gg.lon_sequence())]
         # longitudes given in 0..360 (the second axis shifted into that range) in the -180..180 convention
+        # nodes inside an axis-parallel rectangle (no node on its boundary): latitudes up to the median axis
+        # value, every longitude but the smallest; polygon given as lon, lat, lon, lat, ...
+        lat_s, lon_s = np.sort(axes[0]), np.sort(axes[1])
+        la_lo, la_hi = lat_s[0] - 0.5, lat_s[len(lat_s) // 2] + 0.5
+        lo_lo, lo_hi = lon_s[0] + 0.25, lon_s[-1] + 0.75
+        region = np.array([lo_lo, la_lo, lo_lo, la_hi, lo_hi, la_hi, lo_hi, la_lo])
+        o["reg4"] = [int(round(4 * v)) for v in (la_lo, la_hi, lo_lo, lo_hi)]
+        o["inside"] = [int(bool(v)) for v in gg.region_indices(region)]
         lon360 = np.mod(np.asarray(gg.lon_sequence(), dtype=float), 360.0)
         o["lon360"] = enc.ints(lon360)
         o["lon180"] = enc.ints(gg.convert_lon_coordinates(lon360))
     else:
-        o["georegseq"], o["lon360"], o["lon180"] = [], [], []
+        o["georegseq"], o["lon360"], o["lon180"], o["reg4"], o["inside"] = [], [], [], [], []
     return o
 
 
